@@ -166,6 +166,7 @@ PROPS = {
             regress("C18"),
             {"run": "^TestC18Dates$", "quick": 1, "thorough": 1, "rapid": False},
             {"run": "^TestC18$", "quick": 150000, "thorough": 1000000},
+            {"run": "^TestC18Fresh$", "quick": 60, "thorough": 600},
             {"fuzz": "FuzzTime", "fuzztime": "90s", "thorough_only": True, "run": "FuzzTime"},
         ],
     },
